@@ -200,7 +200,7 @@ class CoreGen:
         that may be dirty, the success flag and RETURNDATASIZE stored where the final RETURN shows them, sometimes a
         RETURNDATACOPY"""
         r = self.rng
-        op = r.choice(["CALL", "CALL", "STATICCALL", "DELEGATECALL", "CALLCODE"])
+        op = r.choice(["CALL", "CALL", "STATICCALL", "DELEGATECALL", "DELEGATECALL", "CALLCODE"])
         to = r.choice(self.targets + [0x4000])          # 0x4000: an account without code
         self.count("call:" + op)
         self.count("call:to-" + ("nocode" if to == 0x4000 else "code"))
@@ -210,7 +210,7 @@ class CoreGen:
             # plain arguments (a calldata word, a literal, an environment value): nothing z3 could fold further than the
             # driver's simplifier, so that the callee's branches on them are symbolic / concrete on both sides alike
             out += self.plain() + [("push", 0x100 + 32 * w), "MSTORE"]
-        roff, rsize = r.choice([0, 32, 64, 0x140]), r.choice([0, 1, 32, 32, 64, 96])
+        roff, rsize = r.choice([0, 32, 64, 0x140]), r.choice([0, 1, 32, 32, 64, 96, 96])
         if r.random() < 0.5:                            # dirty return area
             out += self.expr(1) + [("push", roff), "MSTORE"]
         out += [("push", rsize), ("push", roff), ("push", asize), ("push", 0x100)]
@@ -239,9 +239,14 @@ class CoreGen:
             # a context probe: msg.sender / address(this) / msg.value of the frame, returned (and sometimes stored), so
             # that the per-kind rules of CALL / CALLCODE / DELEGATECALL / STATICCALL are visible in the caller's memory
             self.count("callee:context-probe")
-            items = ["CALLER", ("push", 0), "MSTORE", "ADDRESS", ("push", 32), "MSTORE", "CALLVALUE", ("push", 64), "MSTORE"]
+            what = ["CALLER", "ADDRESS", "CALLVALUE"]
+            r.shuffle(what)
+            for i, v in enumerate(what):
+                items += [v, ("push", 32 * i), "MSTORE"]
             if r.random() < 0.5:
                 items += ["CALLER", ("push", 3), "SSTORE"]
+            if r.random() < 0.3:
+                items += ["CALLVALUE", ("push", 2), "TSTORE"]
             self.count("callee:" + "RETURN")
             return items + [("push", r.choice([64, 96])), ("push", 0), r.choice(["RETURN", "RETURN", "REVERT"])]
         if r.random() < 0.8:
@@ -309,7 +314,7 @@ class CoreGen:
         if self.targets:
             # a caller: one to three call sites between a few other statements, then (mostly) return the whole scratch
             # memory — success flags, RETURNDATASIZE, return areas — so that every call is observable
-            for _ in range(self.rng.randrange(1, 4)):
+            for _ in range(self.rng.randrange(1, 5)):
                 if self.rng.random() < 0.5:
                     items += self.stmt(1)
                 if self.rng.random() < 0.25:
@@ -477,7 +482,7 @@ def compare_core(ctx, n):
         nargs = rng.choice([1, 2, 3, 4])
         callees = {}
         try:
-            if rng.random() < 0.5:
+            if rng.random() < 0.65:
                 # one or two callee contracts; 0x2000 may call 0x3000; the program under test may call both
                 g3 = CoreGen(rng, 2, callee=True)
                 callees[0x3000] = asm.assemble(g3.callee_program())
@@ -498,7 +503,7 @@ def compare_core(ctx, n):
             ctx.count("core:" + k, v)
         loop = rng.choice([1, 2, 2, 3])
         oracle = rng.choice(["unknown", "unknown", "sat"])
-        if (any(k in g.hist for k in ("sto:SSTORE", "sto:TSTORE")) and rng.random() < 0.1) or (callees and rng.random() < 0.15):
+        if (any(k in g.hist for k in ("sto:SSTORE", "sto:TSTORE")) and rng.random() < 0.1) or (callees and rng.random() < 0.25):
             oracle += "+static"
             ctx.count("core:static-frame")
         pre = ["nocode"] + [f"code {a:x} {c.hex()}" for a, c in sorted(callees.items())]
